@@ -253,6 +253,7 @@ Fixpoint check_b2 (body : bytes) (app_opts : list (N * list bytes)) (off : N) (f
        | None => false
        | Some r =>
          opts_superset app_opts r &&
+         (match block_of OPT_BLOCK2 req with Some cb => len (payload r) <=? block_size cb | None => true end) &&
          match block_of OPT_BLOCK2 r with
          | None => (* not fragmented: the whole body in one response *)
                    first && bytes_eqb (payload r) body && match l' with [] => true | _ => false end
@@ -372,9 +373,13 @@ Definition verdict90 (s out : list N) : bool :=
   | Some (m, mode, l) =>
     match rd_obs_list (S (length out)) out with
     | Some os =>
-      match exchanges l, os with
-      | [(8, req, _, _)], [o] => check_413 req o
-      | ex, _ => check_b1 (body_of ex 0) ex os 0
+      (* a request judged as "too large" has tid 8 and comes last; anything before it (tid 9: an abandoned upload or an
+         earlier refusal on the same resource) is not judged beyond "no panic" *)
+      match rev (exchanges l), rev os with
+      | (8, req, _, _) :: pre, o :: opre =>
+        forallb (fun x => let '(t, _, _, _) := x in t =? 9) pre && forallb (fun o' => negb (panicked o')) opre
+        && (len pre =? len opre) && check_413 req o
+      | _, _ => check_b1 (body_of (exchanges l) 0) (exchanges l) os 0
       end
     | None => false
     end
@@ -417,6 +422,8 @@ Definition within_budget (m : N) (req : packet) (o : obs) : bool :=
                       | Some cb => (block_size b <=? block_size cb)
                                    && (if (b_szx cb <=? 6) && (overhead req + block_size cb + 32 <=? m) then block_size b =? block_size cb else true)
                       | None => true end
+                   (* the client's next upload block of the acknowledged size fits: size <= M - overhead - 12 *)
+                   && (block_size b + overhead req + 12 <=? m)
        | None => true end
   end.
 
